@@ -351,6 +351,65 @@ PROPS.update({
 })
 
 
+PROPS.update({
+    'C07': dict(
+        gens=[('par', 'some', 40, 0, 0), ('par', 'all', 0, 120, 0)],
+        translators=['parallel_sites', 'constants'],
+        spec_fields=[], model_fields=[r'build'], impl_checks=[('par', '1')],
+        nontrivial=lambda req, I: I.get('par') is not None and int(I.get('fplen', '0')) > 1000,
+        hist=lambda req, I: graph_hist(req, I) + ['weighted' + req.split()[-3 - int(req.split()[-1 - 0] and 0)] if False else 'pools.' + str(len(req.split()) and req.split().count(' '))][:3],
+        rule='random graphs of 21..60 nodes (all kinds, sparse) weighted and unweighted; all_pairs (with and without paths), multi_source '
+             '(cutoff, first_only), get_all_shortest_paths_involving, betweenness (raw, normalized), closeness (plain, wf) inside '
+             'ThreadPoolBuilder pools of 2,3,4,7,16 threads (thorough: every size 1..=16, three repeats) and from six concurrent reader '
+             'threads sharing one &Graph, every f64 compared by bit pattern with the 1-thread result; non-trivial = fingerprint longer than 1000 bytes',
+        assumptions=['the actual work-stealing interleavings and rayon\'s guarantee that an indexed collect preserves order are runtime / library '
+                     'behaviour: the theorem is about the indexed-collect model, whose shape is re-checked against the source on every run',
+                     'data-race freedom is Rust\'s type system (no unsafe / interior mutability in src/, re-checked syntactically)'],
+        trusted_extra=['tools/extract.py parallel_sites, constants (syntactic re-check of the modelling assumption)'],
+    ),
+})
+PROPS['C07']['hist'] = lambda req, I: graph_hist(req, I)
+
+
+def degen_custom(req, I):
+    out = []
+    for name, v in I.items():
+        items = v.split(' ')
+        if 'P' in items or 'T' in items:
+            out.append({'field': name, 'impl': v[:300], 'spec': 'no panic (P) and no hang (T) on any call'})
+    return out
+
+
+DEGEN_MODEL = [r'get_node', r'has_node', r'get_edges_for_node', r'get_in_edges_for_node', r'get_out_edges_for_node', r'get_neighbor_nodes',
+               r'get_successor_nodes', r'get_predecessor_nodes', r'get_successor_node_names', r'get_predecessor_node_names',
+               r'get_node_(weighted_)?(in_|out_)?degree', r'node_connected_component', r'get_edge', r'get_edges', r'has_nodes',
+               r'get_edges_for_nodes', r'get_in_edges_for_nodes', r'get_out_edges_for_nodes', r'get_subgraph', r'triangles_some',
+               r'generalized_degree_some', r'clustering_some\.w[01]', r'breadth_first_search', r'get_successors_or_neighbors',
+               r'square_clustering_some', r'bfs_equal_size_partitions', r'get_node_by_index', r'get_(weighted_)?(in_|out_)?degree_for_all_nodes',
+               r'degree_centrality', r'get_sparse_adjacency_matrix', r'reverse', r'set_all_edge_weights', r'to_single_edges', r'ensure_\w+',
+               r'connected_components', r'number_of_connected_components', r'weakly_connected_components', r'strongly_connected_components',
+               r'triangles', r'generalized_degree', r'transitivity', r'square_clustering', r'clustering\.w[01]', r'single_source\.w[01]',
+               r'single_source_target\.w[01]', r'all_pairs_target\.w[01]', r'multi_source\.w[01]', r'all_pairs\.w[01]',
+               r'all_pairs_basic\.w[01]', r'betweenness\.w0', r'closeness\.w0']
+
+PROPS.update({
+    'C20': dict(
+        gens=[('degen', '-', 288, 288, 0)],
+        translators=['pub_fns'],
+        spec_fields=[r'.*'], model_fields=DEGEN_MODEL, require_spec_fields=False, custom=degen_custom,
+        nontrivial=lambda req, I: True,
+        hist=lambda req, I: graph_hist(req, I) + ['calls.%d' % sum(len(v.split()) for v in I.values())],
+        rule='exhaustive: 8 graph kinds x 12 degenerate shapes (empty, single node, two isolated nodes, single edge, path, triangle, '
+             'parallel edges, lone self-loop, reciprocal pair with self-loop, self-loop with parallel edges, edge plus isolated node, mixed) '
+             'x 3 weight modes; ~100 public functions, arguments = every name of the graph plus one absent name (functions with an error '
+             'channel), every ordered pair, four node sets; each call under catch_unwind, Louvain and eigenvector under a 5 s watchdog; '
+             'harness built with overflow-checks and debug-assertions on (thorough: also without); every case counts as non-trivial',
+        assumptions=COMMON_ASSUME[:2] + ['coverage of the public API is re-checked against `pub fn` in src/ on every run (tools/pubfns_covered.txt)'],
+        trusted_extra=['tools/extract.py pub_fns'],
+    ),
+})
+
+
 def run_translator(ctx, name):
     import extract
     return extract.run(ctx, name)
